@@ -26,6 +26,7 @@ def parseSpec (s : String) : FSpec :=
   | ["fwd", g] => .fwd (nameIdx g)
   | ["ownT", f, t] => .ownT (f.toNat?.getD 0) (nameIdx t)
   | ["ownK", f, k] => .ownK (f.toNat?.getD 0) (nameIdx k)
+  | ["ownG", f, g] => .ownG (f.toNat?.getD 0) (nameIdx g)
   | _ => .bad
 
 def parseStrat (s : String) : Strat :=
